@@ -49,12 +49,12 @@
 (*   NsEmptyQuals     TRUE  | FALSE variant: remove_namespace ignores the  *)
 (*                            qualifier store                              *)
 (***************************************************************************)
-EXTENDS QualRepo, FiniteSetsExt
+EXTENDS QualRepo, SequencesExt
 
 CONSTANTS UpdateCopies, GuardDefaultNs, CompileReplaces, GetCopies, UseScan,
           AddRollback, NsEmptyQuals
 
-SeqOf(S) == SetToSeq(S)
+AsSeq(S) == SetToSeq(S)
 
 NoRes == [rq |-> 0, rd |-> "", rlist |-> <<>>]
 Ok(res) == [ok |-> TRUE, code |-> 0, rq |-> res.rq, rd |-> res.rd,
@@ -105,7 +105,7 @@ ImplDelete(st, c) ==
 ImplEnum(st, c) ==
   IF Eff(c.ns) \notin st.live THEN R3(Err(E_INVALID_NAMESPACE), st, {})
   ELSE R3(Ok([NoRes EXCEPT !.rlist =
-                SeqOf({[q |-> r.q, d |-> r.d] : r \in InNs(st, Eff(c.ns))})]),
+                AsSeq({[q |-> r.q, d |-> r.d] : r \in InNs(st, Eff(c.ns))})]),
           st, {})
 
 (* add_cimobjects: one store.create per object, ValueError on the first     *)
@@ -184,6 +184,6 @@ MutateAliased(st, al) ==
                         ELSE r : r \in @}]
 
 DumpOf(st) ==
-  [live |-> SeqOf(st.live), quals |-> SeqOf(st.quals), gets |-> SeqOf(st.quals),
-   classes |-> SeqOf({CName(r) : r \in st.cls})]
+  [live |-> AsSeq(st.live), quals |-> AsSeq(st.quals), gets |-> AsSeq(st.quals),
+   classes |-> AsSeq({CName(r) : r \in st.cls})]
 =============================================================================
